@@ -552,6 +552,29 @@ example : Gen.Fn.snep_send_request [1, 2, 3, 4, 5] 2 [16, 128, 0, 0, 0, 0] (fun 
 example : Gen.Fn.snep_send_request [1, 2, 3, 4, 5] 0 [16, 128, 0, 0, 0, 0] (fun _ => true) = .error .value := by
   decide +kernel
 
+/-! ## the socket calls / tests that enclose the sub-expression cuts (`whole=True` cuts over oracle sockets) -/
+
+/-- the fragments and protocol constants above are `expr=` cuts of SUB-expressions (arguments of `send`, operands of the
+Continue tests).  The complete statements / tests around them are regenerated as well: for EVERY oracle socket they are
+exactly the socket call on that sub-expression (`Snep.unsupRsp`, `rejectRsp`, `contRsp`, `contReq`, the fragments) -
+an operand added to the sent value or to the test changes these definitions -/
+theorem whole_calls_bridge (data : Bytes) (offset miu : Int) (recv : Bytes) (send : Bytes → Bool) :
+    Gen.Fn.snep_srv_unsup_send recv send = send unsupRsp
+    ∧ Gen.Fn.snep_srv_reject_send recv send = send rejectRsp
+    ∧ Gen.Fn.snep_srv_cont_send recv send = send contRsp
+    ∧ Gen.Fn.snep_srv_first_send data miu recv send = send (Gen.Fn.snep_srv_first data miu)
+    ∧ Gen.Fn.snep_srv_frag_send data offset miu recv send = send (Gen.Fn.snep_srv_frag data offset miu)
+    ∧ Gen.Fn.snep_srv_cont_test recv send = decide (recv = contReq)
+    ∧ Gen.Fn.snep_cli_cont_send recv send = send contReq
+    ∧ Gen.Fn.snep_cli_first_test data miu recv send = !(send (Gen.Fn.snep_cli_first data miu))
+    ∧ Gen.Fn.snep_cli_cont_test recv send = decide (recv ≠ contRsp) := by
+  refine ⟨rfl, rfl, rfl, rfl, rfl, rfl, rfl, ?_, rfl⟩
+  unfold Gen.Fn.snep_cli_first_test Gen.Fn.snep_cli_first
+  cases send (slice data 0 miu) <;> rfl
+
+example : Gen.Fn.snep_srv_first_send [1, 2, 3] 2 [] (fun g => decide (g = [1, 2])) = true := by decide +kernel
+example : Gen.Fn.snep_cli_cont_test [16, 128, 0, 0, 0, 0] (fun _ => true) = false := by decide +kernel
+
 /-! ## the same slices against the `Py`-level transcriptions of the C07 model (`Model/PeerSnep.lean`) -/
 
 theorem serve_header_peer (m : Bytes) :
